@@ -9,12 +9,14 @@ import (
 	_ "verif/harness/c01"
 	_ "verif/harness/c02"
 	_ "verif/harness/c03"
+	_ "verif/harness/c04"
 	_ "verif/harness/c06"
 	_ "verif/harness/c07"
 	_ "verif/harness/c08"
 	_ "verif/harness/c13"
 	_ "verif/harness/c14"
 	_ "verif/harness/c15"
+	_ "verif/harness/c16"
 	_ "verif/harness/c18"
 )
 
